@@ -1,4 +1,4 @@
-# sourced by every script: offline Go environment
+# sourced by every script: offline Go environment; VERIF_DIR is wherever this checkout lives
 export GOFLAGS=-mod=mod GOPROXY=off GOSUMDB=off GOTOOLCHAIN=local
-export VERIF_DIR="${VERIF_DIR:-/verif}"
+export VERIF_DIR="${VERIF_DIR:-$(cd "$(dirname "${BASH_SOURCE[0]}")/.." && pwd)}"
 export REPO_DIR="${REPO_DIR:-/repo}"
